@@ -6,6 +6,7 @@ import re
 from ..astutil import calls_in, call_name, dotted, norm, try_fold, walk_no_nested
 from ..cfg import cfg_of
 from ..core import AnalysisError
+from ..exprnorm import conjuncts
 from ..tables import enum_of
 
 TM = "ethosu/vela/tflite_mapping.py"
@@ -68,6 +69,8 @@ def run(repo, rep):
     rule_maps(repo, rep, tm)
     rule_interface(repo, rep)
     rule_pairing(repo, rep)
+    rule_pass_order(repo, rep)
+    rule_before_placement(repo, rep)
     rule_gate(repo, rep)
     rule_round3(repo, rep)
     rule_option_names(repo, rep, tm)
@@ -534,3 +537,122 @@ def rule_unguarded_rewrites(repo, rep):
             else:
                 rep.info("C11-e", f"{GO}:{nm}", txt, "mutation of the visited operator not dominated by a run_on_npu test (type tests on NPU-only patterns may make it unreachable for CPU operators: listed, not decided)")
     rep.extra["c11e_passes_with_unsupported"] = sorted(set(passes))
+
+
+def rule_before_placement(repo, rep):
+    """(g) An operator's placement is decided by supported_operator_check. Whatever rewrites an operator before that point also
+    rewrites operators that are then rejected and written back as CPU operators. Only compile-time constant folding (allowed by the
+    property) and rewrites that merely clear run_on_npu may run there."""
+    rep.clause("C11-g", "no rewrite that changes an operator's options, operands or the quantisation of its constants runs before the supported-operator check decides its placement "
+               "(operators rejected afterwards are written back and must be unchanged); constant folding and pure run_on_npu checks excepted")
+    go = repo.mod("tflite_graph_optimiser")
+    tg = go.func("tflite_optimise_graph")
+    FOLDING = {
+        "optimise_quantize": "folds QUANTIZE of a constant into a constant (compile-time folding is allowed by the property)",
+        "convert_shape_op_to_constant_tensor": "folds SHAPE of a statically shaped tensor into a constant",
+    }
+    lists = {}
+    for s in ast.walk(tg):
+        if isinstance(s, ast.Assign) and isinstance(s.targets[0], ast.Name) and isinstance(s.value, ast.List):
+            lists[s.targets[0].id] = list(s.value.elts)
+    before = []
+    found = False
+    for c in sorted(calls_in(tg, "rewrite_graph_pre_order"), key=lambda c_: c_.lineno):
+        kw = {k.arg: k.value for k in c.keywords}
+        oplist = c.args[4] if len(c.args) > 4 else kw.get("op_rewrite_list")
+        elts = lists.get(oplist.id, []) if isinstance(oplist, ast.Name) else (list(oplist.elts) if isinstance(oplist, ast.List) else [])
+        for e in elts:
+            if str(norm(e)) == "supported_operator_check":
+                found = True
+                break
+            before.append(e)
+        if found:
+            break
+    if not found:
+        raise AnalysisError("tflite_optimise_graph: the pass containing supported_operator_check was not found")
+
+    def candidates(e):
+        if isinstance(e, ast.Name):
+            return [e.id]
+        if isinstance(e, ast.Call) and isinstance(e.func, ast.Name) and e.func.id in go.functions:
+            # a factory: every function it can return
+            return sorted({str(norm(r.value)) for r in ast.walk(go.functions[e.func.id]) if isinstance(r, ast.Return) and isinstance(r.value, ast.Name)})
+        return []
+
+    n = 0
+    for e in before:
+        for nm in candidates(e):
+            f = go.functions.get(nm)
+            if f is None:
+                continue
+            n += 1
+            site = f"{GO}:{nm}"
+            if nm in FOLDING:
+                rep.ok("C11-g", site, f"{nm} runs before the supported-operator check", "constant folding: " + FOLDING[nm])
+                continue
+            opn = f.args.args[0].arg if f.args.args else "op"
+            effects = []
+            for sub in ast.walk(f):
+                if isinstance(sub, (ast.Assign, ast.AugAssign)):
+                    for t in (sub.targets if isinstance(sub, ast.Assign) else [sub.target]):
+                        tt = str(norm(t))
+                        if tt == f"{opn}.run_on_npu":
+                            continue
+                        if tt.startswith(opn + ".") or tt.startswith(opn + "["):
+                            effects.append(str(norm(sub))[:70])
+                if isinstance(sub, ast.Call) and isinstance(sub.func, ast.Attribute) and str(norm(sub.func.value)).startswith(opn + ".") and sub.func.attr in MUTATORS | {"update", "set_input_tensor", "set_output_tensor"}:
+                    effects.append(str(norm(sub))[:70])
+            rep.check(not effects, "C11-g", site, f"{nm} (run before the supported-operator check) leaves the operator as read",
+                      f"mutates the operator: {effects[:3]} - an operator that the supported-operator check then rejects is written to the output file with these changes")
+    if n < 2:
+        raise AnalysisError(f"rewrites before supported_operator_check: only {n} found")
+    rep.floor("C11-g", 2)
+
+
+def rule_pass_order(repo, rep):
+    """(h) pass_packing moves a CPU pass to the top of the schedule when it "only depends on sg.input_tensors". That has to be
+    decided on all inputs of the pass: an operator with more operands than ifm / ifm2 (CONCATENATION, PACK, ADD_N, custom
+    operators ...) may take a third operand from another pass, and then runs before its producer."""
+    rep.clause("C11-h", "a CPU pass is hoisted above the other passes only if every one of its inputs is a subgraph input or a start-up constant (quantified over the pass's inputs, "
+               "not only ifm / ifm2); the resource-variable exception aside")
+    pp = repo.mod("pass_packing")
+    f = pp.func("pack_into_passes")
+    site = "ethosu/vela/pass_packing.py:pack_into_passes"
+    apps = [c for c in ast.walk(f) if isinstance(c, ast.Call) and str(norm(c.func)) == "pass_list_top.append"]
+    if len(apps) != 1:
+        raise AnalysisError("pack_into_passes: pass_list_top.append not found")
+    guard = None
+    cur = apps[0]
+    while cur is not None and cur is not f:
+        par = pp.parents.get(cur)
+        if isinstance(par, ast.If) and any(cur is b for b in par.body):
+            guard = par
+            break
+        cur = par
+    if guard is None:
+        raise AnalysisError("pack_into_passes: condition of the hoisting not found")
+    # disjuncts of the placement-independent part
+    t = guard.test
+    parts = conjuncts(t)
+    dis = []
+    for p_ in parts:
+        if isinstance(p_, ast.BoolOp) and isinstance(p_.op, ast.Or):
+            dis = list(p_.values)
+    if not dis:
+        raise AnalysisError("pack_into_passes: disjunction of the hoisting condition not recognised")
+    n = 0
+    for d_ in dis:
+        txt = str(norm(d_))
+        if "VarHandle" in txt or "ReadVariable" in txt or "CallOnce" in txt:
+            rep.ok("C11-h", site, "resource-variable operators may be hoisted (reviewed exception)", txt[:80])
+            n += 1
+            continue
+        quant = [c for c in ast.walk(d_) if isinstance(c, ast.Call) and call_name(c) == "all" and c.args and isinstance(c.args[0], (ast.GeneratorExp, ast.ListComp))
+                 and str(norm(c.args[0].generators[0].iter)) in ("ps.inputs", "ps.ops[0].inputs", "ps.primary_op.inputs")]
+        n += 1
+        rep.check(bool(quant), "C11-h", site, "the 'depends only on subgraph inputs' test ranges over all inputs of the pass",
+                  f"`{txt[:110]}` looks at ifm / ifm2 only: a CPU operator whose other operand is produced by an earlier pass is scheduled before its producer "
+                  "(demonstrated: x -> ADD (NPU) -> DEQUANTIZE -> CONCATENATION([af, y]) with y a graph input: AssertionError in build_pass_links)")
+    if n < 2:
+        raise AnalysisError("pack_into_passes: hoisting alternatives not recognised")
+    rep.floor("C11-h", 2)
